@@ -9,6 +9,7 @@ CONSTANTS
   TypeOf <- MCTypeOf
   RootTypes <- MCRoot
   Edits <- MCEditsWide
+  EncToks <- MCEncAll
   HelperToks <- MCHelpers
   ImportToks <- MCImportsAll
   CmtToks <- MCCmt
